@@ -52,6 +52,18 @@ def _events(text):
     fnc = [0]
     out = []
     deferred = []
+    loop_ends = set()
+    try:
+        from mako.codegen import LoopVariable
+    except ImportError:       # a refactored tree: fall back to a textual test
+        LoopVariable = None
+
+    def uses_loop(n):
+        if LoopVariable is None:
+            return bool(re.search(r"\bloop\b", "".join(getattr(c, "text", "") or getattr(c, "content", "") for c in n.nodes)))
+        lv = LoopVariable()
+        n.accept_visitor(lv)
+        return lv.detected
 
     def walk(nodes, fn, sink):
         for n in nodes:
@@ -61,7 +73,13 @@ def _events(text):
             elif isinstance(n, pt.Expression):
                 sink.append({"k": "expr", "off": off, "n": 0, "fn": fn})
             elif isinstance(n, pt.ControlLine):
-                sink.append({"k": "ctlend" if n.isend else "ctl", "off": off, "n": 0, "fn": fn})
+                if not n.isend and n.keyword == "for" and uses_loop(n):
+                    loop_ends.add(id(n.nodes[-1]))
+                    sink.append({"k": "ctlloop", "off": off, "n": 0, "fn": fn})
+                elif n.isend and id(n) in loop_ends:
+                    sink.append({"k": "ctlendloop", "off": off, "n": 0, "fn": fn})
+                else:
+                    sink.append({"k": "ctlend" if n.isend else "ctl", "off": off, "n": 0, "fn": fn})
             elif isinstance(n, pt.Code):
                 if not n.ismodule:
                     sink.append({"k": "code", "off": off, "n": len(re.split(r"\r?\n", n.text)), "fn": fn})
@@ -120,6 +138,14 @@ def build_catalog(rng):
     E.append(_rt("rt.exprml", "${ (1 +\n %s%s) }" % (F, Z), "raise"))
     E.append(_rt("rt.ctl.if", "%s%% if %s%s:\nx\n%s%% endif\n" % (I, F, Z, I), "raise", ls=True))
     E.append(_rt("rt.ctl.for", "%% for x in [%s%s]:\nx\n%% endfor\n" % (F, Z), "raise", ls=True))
+    # control-line expressions: iterable of a % for with and without `loop` in the body, while / with / except
+    E.append(_rt("rt.ctl.for-loop", "%s%% for x in [%s%s]:\n${loop.index}\n%s%% endfor\n" % (I, F, Z, I), "raise", ls=True))
+    E.append(_rt("rt.ctl.for-loop-nested-use", "%% for x in [%s%s]:\n%% if loop.first:\ny\n%% endif\n%% endfor\n" % (F, Z), "raise", ls=True))
+    E.append(_rt("rt.ctl.for-loop-cont", "%% for x in [1, \\\n    %s%s]:\n${loop.index}\n%% endfor\n" % (F, Z), "raise", ls=True))
+    E.append(_rt("rt.ctl.for-loop-in-def", '<%%def name="h@()">\n%s%% for x in [%s%s]:\n${loop.index}\n%% endfor\n</%%def>«1»${h@()}' % (N, F, Z), "raise", stubs=["h@"]))
+    E.append(_rt("rt.ctl.while", "%s%% while %s%s:\nx\n%s%% endwhile\n" % (I, F, Z, I), "raise", ls=True))
+    E.append(_rt("rt.ctl.with", "%% with %s%s as z:\nx\n%% endwith\n" % (F, Z), "raise", ls=True))
+    E.append(_rt("rt.ctl.except", "%% try:\n${[][1]}\n%s%s%% except (%s%s,):\ny\n%% endtry\n" % (N, I, F, Z), "raise", ls=True))
     E.append(_rt("rt.ctlcont", "%% if v and \\\n    %s%s:\nx\n%% endif\n" % (F, Z), "raise", ls=True))
     E.append(_rt("rt.elif", "%% if not v:\nx\n%s%s%% elif %s%s:\ny\n%% endif\n" % (N, I, F, Z), "raise", ls=True))
     E.append(_rt("rt.block", "<%\n" + "\n" * B + "   a = 1\n" * P + "   z = " + F + Z + "\n   b = 2\n%>", "raise", exact=True))
@@ -142,6 +168,10 @@ def build_catalog(rng):
     E.append(_rt("w.expr", "${ %s%s }" % (F, W), "warn", site="literal"))
     E.append(_rt("w.exprml", "${ (1,\n %s%s) }" % (F, W), "warn", site="literal"))
     E.append(_rt("w.ctl", "%s%% if %s%s:\nx\n%% endif\n" % (I, F, W), "warn", site="literal", ls=True))
+    E.append(_rt("w.ctl.for", "%% for x in [%s%s]:\nx\n%% endfor\n" % (F, W), "warn", site="literal", ls=True))
+    E.append(_rt("w.ctl.for-loop", "%s%% for x in [%s%s]:\n${loop.index}\n%% endfor\n" % (I, F, W), "warn", site="literal", ls=True))
+    E.append(_rt("w.ctl.while", "%% while %s%s and False:\nx\n%% endwhile\n" % (F, W), "warn", site="literal", ls=True))
+    E.append(_rt("w.ctl.elif", "%% if v:\nx\n%s%% elif %s%s:\ny\n%% endif\n" % (N, F, W), "warn", site="literal", ls=True))
     E.append(_rt("w.block", "<%\n" + "\n" * B + "   a = 1\n" * P + "   y = " + F + W + "\n%>", "warn", exact=True, site="literal"))
     E.append(_rt("w.modblock", "<%!\n" + "\n" * B + "   y = " + F + W + "\n%>", "warn", exact=True, site="literal"))
     E.append(_rt("w.modexec", "<%!\n   import warnings\n" + "\n" * B + "   " + F + "warnings.warn('modlevel')\n%>", "warn", exact=True, site="modexec"))
@@ -155,7 +185,7 @@ def cfg_lines(good, faulty, tails, maxpre, nlkinds, inv):
 
 
 def cfg_linemap(good, faulty, tails, maxpre, header, starts, inv):
-    s = ("CONSTANTS\n  Good = {%s}\n  Faulty = {%s}\n  Tails = {%s}\n  MaxPre = %d\n  NLKinds = {\"lf\"}\n  Header = %d\n"
+    s = ("CONSTANTS\n  Good = {%s}\n  Faulty = {%s}\n  Tails = {%s}\n  MaxPre = %d\n  NLKinds = {\"lf\"}\n  Routes = {\"string\"}\n  RichOverrides = TRUE\n  Header = %d\n"
          "  BlockCallStartsSource = %s\nSPECIFICATION LMSpec\nCHECK_DEADLOCK FALSE\n"
          % (", ".join(map(str, good)), ", ".join(map(str, faulty)), ", ".join(map(str, tails)), maxpre, header,
             "TRUE" if starts else "FALSE"))
@@ -192,7 +222,10 @@ def build_world(work, path, templates):
     if path == "lookup-strings":
         lk = TemplateLookup()
         for u, t in templates.items():
-            lk.put_string(u, t)
+            try:
+                lk.put_string(u, t)       # compiles eagerly; a failure is re-raised when the render is observed
+            except Exception as e:  # noqa
+                names.setdefault("!fail", e)
             names[u] = u
         return lk, names
     d = os.path.join(work, "tpl")
@@ -454,6 +487,8 @@ def check(run):
                         return tl[0]
                 else:
                     def get():
+                        if "!fail" in names:
+                            raise names["!fail"]
                         tl[0] = lk.get_template("/t.html")
                         return tl[0]
             o = render_and_observe(get, stubs_of(c), want_templates=(p in ("plain", "file") and hsh(ci, p) % 3 == 0))
@@ -489,7 +524,9 @@ def check(run):
             locs = "exc:" + type(e).__name__
         n_render += 1
         if isinstance(locs, str) or sorted(locs) != sorted(set(locs) | set(c["frames"])) or not set(c["frames"]) <= set(locs if not isinstance(locs, str) else []):
-            if isinstance(locs, str) or not set(c["frames"]) <= set(locs):
+            if isinstance(locs, str):
+                note("frame:%s:render:raw:%s" % (fe_of(c)["id"], locs[4:]), "Template(text, format_exceptions=True).render raises %s" % locs[4:], {"template": text})
+            elif not set(c["frames"]) <= set(locs):
                 note("format-exceptions:%s" % fe_of(c)["id"], "error page shows template lines %s, expected %s" % (locs, c["frames"]),
                      {"template": text, "shown": locs, "expected": c["frames"]})
     # ---- chains: top -> (hop)* -> leaf
@@ -520,7 +557,11 @@ def check(run):
         stubs = set()
         for c in chain:
             stubs |= stubs_of(c)
-        o = render_and_observe(lambda: lk.get_template(uris[start]), stubs, want_templates=(k % 5 == 0))
+        def get_chain():
+            if "!fail" in names:
+                raise names["!fail"]
+            return lk.get_template(uris[start])
+        o = render_and_observe(get_chain, stubs, want_templates=(k % 5 == 0))
         n_render += 1
         exp = []
         for i, c in enumerate(chain):
